@@ -28,6 +28,8 @@ def d_apa(name, module, cinit, inv, expect="ok", thorough_only=False):
 
 
 D_SEM = d_tlc("MC_Sem: layer M against first principles, every operand, widths 2..6", "MC_Sem", "MC_Sem.cfg", "int")
+D_SEM_DEEP = [d_tlc("MC_Sem (deep): layer M against first principles, every operand, widths 7 and 8 (8 = the shipping 8-bit layouts)", "MC_Sem",
+                    "MC_Sem_deep.cfg", "int", thorough_only=True)]
 D_MUL = [
     d_tlc("MulLimbs (TLC, signed, H=8, every limb tuple): recombination, combine_lo_then_shl, repaired assertion",
           "MulLimbs", "MulLimbs_tlc_TRUE_8.cfg", "int", subdir="apa"),
@@ -59,6 +61,9 @@ D_EUCLID = [
 D_CMP = [
     d_tlc("MC_Cmp: comparison as repaired = exact rational comparison, 900 layout pairs x all values", "MC_Cmp", "MC_Cmp.cfg", "int"),
     d_tlc("MC_Cmp_refute: comparison as originally coded", "MC_Cmp", "MC_Cmp_refute.cfg", "int", expect="violated"),
+    d_tlc("MC_Cmp (deep): all 196 layout pairs of width 6 x all values", "MC_Cmp", "MC_Cmp_deep.cfg", "int", thorough_only=True),
+    d_tlc("MC_Cmp (deep): all 324 pairs of the 18 shipping 8-bit layouts x all 65 536 value pairs", "MC_Cmp", "MC_Cmp_deep8.cfg", "int",
+          thorough_only=True),
 ]
 D_FMT = [
     d_tlc("MC_Fmt: decimal digit generation as repaired = correctly rounded, every value of the 8-bit layouts", "MC_Fmt", "MC_Fmt.cfg", "big"),
@@ -113,10 +118,11 @@ D_TRIG = [
      for ci, n, to in [("CInit23", "I9F23", False), ("CInit64", "f = 64", False), ("CInit32", "f = 32", True), ("CInit88", "f = 88", True)]] + [
     d_apa("CordicZ: non-vacuity, the residual is not always zero", "AP_CordicZ.tla", "CInit23", "Exact", expect="violated")]
 DESIGNS = {
-    "C01": [D_SEM] + D_MUL + D_DIV, "C02": [D_SEM] + D_MUL[:2] + D_MUL[6:11], "C03": [D_SEM] + D_CMP + D_FLOAT[:1], "C04": [D_SEM] + D_CONV, "C05": D_FLOAT,
+    "C01": [D_SEM] + D_MUL + D_DIV + D_SEM_DEEP, "C02": [D_SEM] + D_MUL[:2] + D_MUL[6:11] + D_SEM_DEEP, "C03": [D_SEM] + D_CMP + D_FLOAT[:1], "C04": [D_SEM] + D_CONV, "C05": D_FLOAT,
     "C06": [D_SEM, d_tlc("MC_Round: rounding methods as coded (masks, 0/1 integer-bit special cases) = exact roundings, every value, "
-                         "68 layouts of widths 2..6 and 8", "MC_Round", "MC_Round.cfg", "int")] + D_ROUNDINT,
-    "C07": [D_SEM] + D_EUCLID, "C09": D_FMT,
+                         "68 layouts of widths 2..6 and 8", "MC_Round", "MC_Round.cfg", "int"),
+            d_tlc("MC_Round (deep): widths 7, 9, 10, 12", "MC_Round", "MC_Round_deep.cfg", "int", thorough_only=True)] + D_ROUNDINT + D_SEM_DEEP,
+    "C07": [D_SEM] + D_EUCLID + D_SEM_DEEP, "C09": D_FMT,
     "C08": [d_tlc("MC_Parse: tokeniser as coded = grammar, every string up to length 5 over 10 symbols x 4 radices", "MC_Parse",
                   "MC_Parse_5.cfg", "int")], "C11": D_MUL[2:6], "C18": D_WRAPVM,
     "C12": D_TRIG_FITS, "C16": D_TRIG + D_TRIG_FITS,
